@@ -69,10 +69,12 @@ class FakeEzsp:
         await asyncio.sleep(0)
         rec = (int(idx), int(entry.multicastId), int(entry.endpoint), int(entry.networkIndex))
         rec += (tuple(self.table),)  # table as the NCP sees it when the write arrives
-        if self.answer == "timeout":
+        seq = self.answer.split("+")          # "ok+timeout": the first write of the call is accepted, every later one times out
+        answer = seq[min(len(self.writes), len(seq) - 1)]
+        if answer == "timeout":
             self.writes.append(rec + (False,))
             raise asyncio.TimeoutError()
-        if self.answer == "reject" or not (0 <= int(idx) < len(self.table)):
+        if answer == "reject" or not (0 <= int(idx) < len(self.table)):
             self.writes.append(rec + (False,))
             return (self._st(False),)
         self.table[int(idx)] = (int(entry.multicastId), int(entry.endpoint))
@@ -146,6 +148,12 @@ def events():
     for eps in (((G[0],),), ((G[0], G[1]),), ((G[0],), (G[0], G[1]))):
         for a in ANSWERS[:2]:
             ev.append(("startup", eps, a))
+    # start-up whose table writes time out (all of them, or all but the first), or are rejected after the first one was accepted
+    for eps in (((G[0],),), ((G[0], G[1]),), ((G[0],), (G[0], G[1]))):
+        ev.append(("startup", eps, "timeout"))
+        if len(eps) > 1 or len(eps[0]) > 1:
+            ev.append(("startup", eps, "ok+timeout"))
+            ev.append(("startup", eps, "ok+reject"))
     for g in G:
         for a in ANSWERS:
             ev.append(("subscribe", g, a))
@@ -272,7 +280,8 @@ class World:
         self.ezsp.writes = []
         kind, val = run(self.m.startup(Coordinator(eps)))
         tag = f"startup({len(eps)},{ans}) on table {table_before}"
-        if kind != "ret":
+        if kind != "ret" and not (kind == "timeout" and "timeout" in ans):
+            # (a start-up whose table write times out may pass the time-out on; the books must still be right afterwards)
             return [f"{tag}: call ended with {kind} {val!r}"]
         # every write must program a member group that the NCP does not hold at that moment into an index
         # that is free at that moment (order and batching are the implementation's business)
@@ -290,7 +299,7 @@ class World:
             want_new = [g for g in members if g not in sub]
             if len(now - sub) != min(len(free), len(want_new)) or not (now - sub) <= set(want_new):
                 out.append(f"{tag}: member groups subscribed after start-up {sorted(now - sub)}, expected {min(len(free), len(want_new))} of {want_new}")
-        elif now != sub:
+        elif "+" not in ans and now != sub:
             out.append(f"{tag}: every write was rejected but the NCP table changed")
         if not sub <= now:
             out.append(f"{tag}: start-up removed a subscription")
@@ -526,9 +535,18 @@ def main(tier: str) -> int:
     rep = report.Report("C15", tier, "model_checking")
     n_conc = concurrent_pairs(rep)
     agg = explore_all(tier, rep)
+    if rep.violations:
+        # already refuted: the validation runs and the endpoint-level closure add nothing (and need not terminate on such code)
+        rep.coverage = {"states": agg["states"], "transitions": agg["transitions"], "traces_validated_against_impl": agg["transitions"], "closed": False,
+                        "exhaustive": False, "concurrent_pair_cases": n_conc, "samples": [{"family": s[0], "initial_table": list(s[1]), "events": [list(EVENTS[j]) for j in s[2]]} for s in agg["samples"][:2]]}
+        return rep.finish()
     n_stateless = validate_canon(agg["sorted_keys"], rep, 2 if tier == "quick" else 3)
     ep_states = ep_transitions = 0
     for size, ns, nt, viols in explore.pool().map(endpoint_job, [1, 2] if tier == "quick" else [0, 1, 2, 3]):
+        if ns < 0:
+            for v, sz, hist in viols:
+                rep.add_violation(vkey(v), v, {"world": "c15-endpoint", "size": sz, "events": [list(EpWorld.EVENTS[j]) for j in hist]})
+            raise explore.InternalError(f"C15 endpoint-level state space did not close ({-ns} states and growing, table size {size})")
         ep_states += ns
         ep_transitions += nt
         for v, sz, hist in viols:
@@ -714,4 +732,7 @@ def endpoint_job(size):
                 seen[k] = hist + (i,)
                 frontier.append(hist + (i,))
             w.close()
+        if len(seen) > 3000:
+            # the unchanged code closes at a few dozen states: book-keeping that keeps growing never closes
+            return size, -len(seen), transitions, viols
     return size, len(seen), transitions, viols
